@@ -1,10 +1,10 @@
 package props
 
 import (
-	"os"
 	"fmt"
 	"go/token"
 	"go/types"
+	"os"
 	"strings"
 
 	"golang.org/x/tools/go/ssa"
@@ -750,7 +750,25 @@ func blockAPI(c *Ctx, f *ssa.Function, call *ssa.Call, e *ir.Expr, kind, key str
 		ok := amt.Op == "const" || isZeroInt(amt)
 		r.Require(ok, "A10.block-panics", key, pos(c, call), "coins built on block-level paths have a constant non-negative amount", "amount "+amt.String())
 	case kind == "types.NewCoins":
-		r.OK("A10.block-panics", key, pos(c, call), "reviewed: NewCoins of a single validated coin")
+		// NewCoins sorts and validates: it panics on two coins of the same denomination and on a non-positive... amount;
+		// on a block-level path it is handed at most one coin (a list built in a loop, or several coins, may repeat a
+		// denomination as soon as two records share it)
+		single := false
+		if len(e.Args) == 1 {
+			a := w.Expand(e.Args[0], 2)
+			single = true
+			for _, alt := range a.Alts() {
+				if !(alt.Op == "list" && len(alt.Args) <= 1 || alt.Op == "zero" || alt.Op == "const") {
+					single = false
+				}
+			}
+		} else if len(e.Args) == 0 {
+			single = true
+		}
+		if os.Getenv("MCDEBUG") == "newcoins" {
+			fmt.Fprintln(os.Stderr, "newcoins", key, e.String())
+		}
+		r.Require(single, "A10.block-panics", key, pos(c, call), "NewCoins on a block-level path is given at most one coin (it panics on a repeated denomination, halting the chain)", "coins "+e.String())
 	case kind == "types.ParseLengthPrefixedBytes":
 		// class stored-key-parse: the bytes parsed are a key handed out by a store iterator (whatever helper the
 		// parsing was moved into); that the parser matches the builder's layout is C18's obligation
